@@ -23,6 +23,12 @@ CHECKS = {
  'C17': dict(text='MC: product automata of the generic algorithms (standard and extracted from the code) and positional weighted-sum automata for ISBN-10/ISSN/EAN (Weighted.tla) prove single-substitution / adjacent-swap detection for all numbers; TRACE: exhaustive neighbourhood (every position x every same-class character, every adjacent pair of different digits) of corpus + synthesised valid numbers of the 30 bound modules recorded from the code; TLC checks that each edit is one the property talks about and that it was rejected (Trace_Typo.tla).',
              note='Module list and exclusions (with reasons) in bindings/single_error.json.',
              tech='TLC model checking of product automata + TLC trace validation of exhaustive neighbourhoods', ref='DESIGN.md §4 C17'),
+ 'C10': dict(text='NumDB.tla defines the lookup declaratively (shortest matching length wins, properties of all matches of that length merged in file order, children searched in the rest, unmatched rest one property-less part). TLC (1) model-checks Lossless/ShortestWins/MergeAll/UnmatchedIsOnePart on all small registries (bounded-exhaustive), (2) generates larger well-formed registries that the driver writes out as file text for the real numdb.read(), (3) re-evaluates every recorded lookup (generated registries and the 17 shipped registries, parsed independently) and compares (clauses L1 L2 L3).',
+             note='Well-formedness is part of the generator; the independent parser/serialiser (harness/vlib/ndb.py) is trusted.',
+             tech='TLC bounded-exhaustive model checking of the declarative lookup + TLC-generated registries replayed into numdb + trace validation of recorded lookups', ref='DESIGN.md §4 C10'),
+ 'C11': dict(text='Exhaustive over the finite data: one event per non-comment line of the 17 registry files (raw text + what numdb\'s parser made of it), re-read by TLC with the line grammar of NumDBFile.tla (R1 understood completely, R2 well-formed, R2n consistent nesting as session state); one reach event per entry (R3; sampled to 4000 per file in quick); consumer witnesses built BY THE SPEC (Gen_Witness.tla: an IBAN per country structure with Mod 97-10 check digits, an ISBN-13 per publisher range with EAN check digit) plus GS1 element strings and postal codes, replayed into iban/isbn/gs1_128/at.postleitzahl (W1 W2).',
+             note='Not every consumer has a witness builder yet (banks, locations, tax offices are covered by R3 through numdb only).',
+             tech='TLC trace validation with a TLA+ line grammar; TLC-generated consumer witnesses replayed into the code', ref='DESIGN.md §4 C11'),
  'C15': dict(text='TLC enumerates (op, position, foreign character class); the driver puts a same-valued foreign digit / look-alike letter at every position of corpus numbers of every module (all Nd/No/Nl code points outside the clean-up table in thorough), plus case-mapping specials over the whole corpus; TLC evaluates S1 (returned value is ASCII) on every accepted session; exclusions are constants of the spec.',
              note='Acceptance itself is not judged, only pass-through of non-ASCII characters.',
              tech='TLA+ contract clause S1 (Api.tla) + TLC trace validation; TLC-generated foreign-character edits', ref='DESIGN.md §4 C15'),
